@@ -136,7 +136,15 @@ type Chan struct {
 	zero    Value
 }
 
+type wgState struct {
+	n       int
+	waiters []*G
+	vc      []int
+}
+
 type Sched struct {
+	lifo bool // serve the run queue last-in-first-out (see verifSchedChoice)
+	wgs  map[*Value]*wgState
 	in   *Interp
 	cur  *G
 	main *G
@@ -206,8 +214,7 @@ func (s *Sched) block() {
 		s.cur = s.main
 		s.main.wake <- wakeMsg{deadlock: true}
 	} else {
-		next := s.runq[0]
-		s.runq = s.runq[1:]
+		next := s.pick()
 		s.cur = next
 		next.wake <- wakeMsg{}
 	}
@@ -233,10 +240,62 @@ func (s *Sched) exit(g *G) {
 		s.main.wake <- wakeMsg{deadlock: true}
 		return
 	}
-	next := s.runq[0]
-	s.runq = s.runq[1:]
+	next := s.pick()
 	s.cur = next
 	next.wake <- wakeMsg{}
+}
+
+// pick removes and returns the next goroutine to run.
+func (s *Sched) pick() *G {
+	i := 0
+	if s.lifo {
+		i = len(s.runq) - 1
+	}
+	g := s.runq[i]
+	s.runq = append(s.runq[:i:i], s.runq[i+1:]...)
+	return g
+}
+
+func (s *Sched) wgOf(p *Value) *wgState {
+	if s.wgs == nil {
+		s.wgs = map[*Value]*wgState{}
+	}
+	w := s.wgs[p]
+	if w == nil {
+		w = &wgState{}
+		s.wgs[p] = w
+	}
+	return w
+}
+
+func (s *Sched) wgAdd(p *Value, d int) {
+	w := s.wgOf(p)
+	w.n += d
+	if w.n < 0 {
+		s.in.rtPanic("sync: negative WaitGroup counter")
+	}
+	if d < 0 {
+		vcTick(&s.cur.vc, s.cur.id)
+		vcJoin(&w.vc, s.cur.vc)
+		vcTick(&s.cur.vc, s.cur.id)
+	}
+	if w.n == 0 {
+		for _, g := range w.waiters {
+			vcJoin(&g.vc, w.vc)
+			s.makeRunnable(g)
+		}
+		w.waiters = nil
+	}
+}
+
+func (s *Sched) wgWait(p *Value) {
+	w := s.wgOf(p)
+	if w.n == 0 {
+		vcJoin(&s.cur.vc, w.vc)
+		return
+	}
+	w.waiters = append(w.waiters, s.cur)
+	s.block()
 }
 
 // finish is called by main when the harness returns: report live goroutines and kill them.
